@@ -41,6 +41,7 @@ type C08Step struct {
 var c08Cwds = []string{"/home/u/work", "/home/u/work", "/home/u", "/tmp/elsewhere"}
 
 type C08Case struct {
+	Sched    []uint16  `json:"sched,omitempty"` // schedule vector of every process of the case (goroutines / channels / select inside the tool)
 	Main     []Cmd     `json:"main"`
 	Notebook string    `json:"notebook"` // missing empty populated handwritten malformed
 	Initial  []Cmd     `json:"initial,omitempty"`
@@ -94,7 +95,6 @@ func shapeNotebook(cs []Cmd, shape string) []byte {
 	}
 	return []byte(std)
 }
-
 
 var awkward = []string{
 	"- leading dash", "? question", ": colon", "key: value", "trailing colon:", "a #comment", "#hash", "'single'", "\"double\"",
@@ -187,6 +187,9 @@ func genC08(rt *rapid.T) C08Case {
 		return st
 	})
 	c.Steps = rapid.SliceOfN(stepGen, 1, tierN(10, 25)).Draw(rt, "steps")
+	if rapid.IntRange(0, 2).Draw(rt, "hassched") == 0 {
+		c.Sched = genSchedule(rt, 40)
+	}
 	return c
 }
 
@@ -268,6 +271,7 @@ func isValidUTF8(s string) bool { return strings.ToValidUTF8(s, "") == s }
 func runC08(c C08Case) *Outcome {
 	o := &Outcome{Probes: map[string]int{}}
 	w := newPWorld()
+	w.sched = c.Sched
 	w.disk.WriteRaw(pMainDB, yamlOf(c.Main), 0o644)
 	var model []nbEntry
 	switch c.Notebook {
